@@ -65,11 +65,15 @@ def _known(prop_id):
     return [e for e in data.get("findings", []) if e.get("property") == prop_id and e.get("status") == "known"]
 
 
-def _write_replay(prop_id, variant, tier, v):
+def _write_replay(prop_id, variant, tier, v, history_shard=None):
     d = os.path.join(HERE, "replays", prop_id)
     os.makedirs(d, exist_ok=True)
     body = {"property": prop_id, "variant": variant, "tier": tier, "key": v["key"],
             "case": v["case"], "detail": v.get("detail")}
+    if history_shard is not None:
+        body["history_shard"] = _jsonable(history_shard)
+        body["note"] = ("the case alone does not violate from the initial state; it does after the cases that precede it in "
+                        "this shard (state left behind in the process). --replay re-executes the shard.")
     sha = hashlib.sha1(json.dumps(body, sort_keys=True).encode()).hexdigest()[:12]
     path = os.path.join(d, sha + ".json")
     with open(path, "w") as f:
@@ -90,10 +94,52 @@ def _replay_keys(mod, case):
         env.unmute()
 
 
+def _child_replay_case(case):
+    keys, ctx = _replay_keys(_MOD, case)
+    return keys
+
+
+def _child_replay_shard(shard):
+    """Re-executes a whole shard from the initial process state; returns the finding keys it reports."""
+    env.install_watchdog()
+    env.mute()
+    try:
+        env.reset_globals()
+        ctx = Ctx(_TIER or "replay", shard.get("variant", 0) if isinstance(shard, dict) else 0)
+        _MOD.run_shard(shard, ctx)
+        return sorted(ctx.viol_count.keys())
+    finally:
+        env.unmute()
+
+
+def _in_fresh_child(fn, arg):
+    """Runs fn(arg) in a process forked from this one (which has executed no case itself)."""
+    mpc = multiprocessing.get_context("fork")
+    pool = mpc.Pool(1)
+    try:
+        return pool.apply(fn, (arg,))
+    finally:
+        pool.terminate()
+        pool.join()
+
+
 def do_replay(prop_id, path):
+    global _MOD, _TIER
     mod = _load(prop_id)
+    _MOD = mod
     with open(path) as f:
         body = json.load(f)
+    if body.get("history_shard") is not None:
+        # the violation needs the cases that ran before it in the same process: re-execute that shard
+        _TIER = body.get("tier", "quick")
+        keys = _child_replay_shard(unjson(body["history_shard"]))
+        if body["key"] in keys:
+            env.say("replay of %s (whole shard, the violation depends on the cases executed before it): still violates: %s"
+                    % (path, body["key"]))
+            env.say("VIOLATION property=%s replay=%s" % (prop_id, path))
+            return 1
+        env.say("replay of %s (whole shard): no violation" % path)
+        return 0
     keys, ctx = _replay_keys(mod, body["case"])
     if keys:
         env.say("replay of %s: still violates: %s" % (path, ", ".join(keys)))
@@ -175,6 +221,7 @@ def main():
         agg.extra.update(r["extra"])
         agg.viol_count.update(r["viol_count"])
         for v in r["violations"]:
+            v["shard_no"] = r["shard_no"]
             viols.setdefault(v["key"], []).append(v)
         for s in r["samples"]:
             if len(agg.samples) < 6:
@@ -212,12 +259,22 @@ def main():
     replay_paths = []
     for k in new_keys[:8]:
         v = viols[k][0]
-        k1, _ = _replay_keys(mod, v["case"])
-        k2, _ = _replay_keys(mod, v["case"])
-        if k1 != k2 or k not in k1:
-            machinery.append("violation %r did not reproduce identically on replay (%r, %r)" % (k, k1, k2))
+        k1 = _in_fresh_child(_child_replay_case, v["case"])
+        k2 = _in_fresh_child(_child_replay_case, v["case"])
+        if k1 == k2 and k in k1:
+            replay_paths.append((k, _write_replay(prop_id, variant, a.tier, v)))
             continue
-        replay_paths.append((k, _write_replay(prop_id, variant, a.tier, v)))
+        if k1 == k2 and k not in k1:
+            # not a violation from the initial state: does it need the cases executed before it (process-global state)?
+            shard = shards[v["shard_no"]]
+            h1 = _in_fresh_child(_child_replay_shard, shard)
+            h2 = _in_fresh_child(_child_replay_shard, shard)
+            if h1 == h2 and k in h1:
+                replay_paths.append((k, _write_replay(prop_id, variant, a.tier, v, history_shard=shard)))
+                continue
+            machinery.append("violation %r reproduces neither alone nor by re-executing its shard (%r, %r)" % (k, h1, h2))
+            continue
+        machinery.append("violation %r did not reproduce identically on replay (%r, %r)" % (k, k1, k2))
     if not viols and hasattr(mod, "probe"):
         env.mute()
         try:
